@@ -1,5 +1,11 @@
 #!/bin/sh
-# Build the framework from files on disk only (offline).
+# Build the framework from files on disk only (offline): harness, CLI, generated tables, Lean library + driver.
 set -e
 cd "$(dirname "$0")"
-(cd lean && lake build 2>&1 | tail -3)
+export CARGO_NET_OFFLINE=true
+mkdir -p work evidence replay
+[ -f harness/Cargo.lock ] || cp /repo/Cargo.lock harness/Cargo.lock 2>/dev/null || cp harness/Cargo.lock.seed harness/Cargo.lock
+(cd harness && cargo build --offline 2>&1 | tail -1)
+cargo build --offline --manifest-path /repo/Cargo.toml --target-dir target-cli 2>&1 | tail -1
+python3 tools/gen_tables.py harness/target/debug/harness
+(cd lean && lake build Resynth resynth_model 2>&1 | tail -2)
